@@ -549,9 +549,7 @@ func init() {
 								var fails []string
 								cls := fmt.Sprintf("[stale-writer late=%s server=%v]", late, cfg.server)
 								if late != "close" {
-									if k, e := w1.Write([]byte("STALE")); e == nil {
-										fails = append(fails, fmt.Sprintf("stale-writer-accepted%s: Write on a closed writer accepted %d bytes (%s)", cls, k, id))
-									}
+									w1.Write([]byte("STALE")) // (whatever it returns: it may not reach the peer)
 								}
 								if late != "write" {
 									w1.Close() // (its result is not specified; its effect is: none)
@@ -695,11 +693,7 @@ func init() {
 										cls := fmt.Sprintf("[then=%s server=%v]", p2.api, server)
 										var fails []string
 										for i := 0; i < 2; i++ {
-											err := wtWrite(conn, p2, wtMsg{true, wtPayload(7, true)})
-											if err == nil {
-												fails = append(fails, fmt.Sprintf("write-after-fault-accepted%s: write #%d after the failed stream write (%v) reported success (%s)", cls, i+1, firstErr, id))
-												break
-											}
+											wtWrite(conn, p2, wtMsg{true, wtPayload(7, true)}) // (whatever it reports: nothing may follow the torn frame)
 										}
 										if len(st.out) != before {
 											fails = append(fails, fmt.Sprintf("bytes-after-torn-frame%s: %d more bytes reached the stream after a stream write had failed (%v): the stream is no longer a sequence of frames (%s)", cls, len(st.out)-before, firstErr, id))
